@@ -10,6 +10,7 @@ def poisson(kmean: float) -> callable:
     """
 
     def p(k: int) -> float:
+        k = int(k)  # numpy integer degrees would wrap around silently inside pow()
         try:
             value = np.exp(-kmean) * pow(kmean, k) / factorial(k)
         except OverflowError:
